@@ -40,7 +40,7 @@ type witnessResult struct {
 
 func loadWitnesses(prop string) []witnessMeta {
 	var out []witnessMeta
-	for _, base := range []string{"witness", "seeded"} {
+	for _, base := range []string{"witness", "seeded", "refactor"} {
 		dirs, _ := filepath.Glob(filepath.Join(verifDir, base, "*", "meta.json"))
 		for _, mf := range dirs {
 			b, err := os.ReadFile(mf)
@@ -162,7 +162,7 @@ func firstLine(s string) string {
 func runWitnesses(prop, repo string) []witnessResult {
 	ws := loadWitnesses(prop)
 	results := make([]witnessResult, len(ws))
-	sem := make(chan struct{}, 4)
+	sem := make(chan struct{}, 8)
 	var wg sync.WaitGroup
 	for i, w := range ws {
 		wg.Add(1)
